@@ -149,6 +149,8 @@ class ExprMixin(object):
         return VSym(("global", mod, nm), cls=cls)
 
     def fold_const(self, mod, node):
+        if isinstance(node, ast.Name) and node.id not in self.p.modules[mod].globals:
+            return self.global_value(mod, node.id)
         if isinstance(node, ast.Constant):
             if isinstance(node.value, bool) or node.value is None:
                 return VConst(node.value)
@@ -650,8 +652,11 @@ class ExprMixin(object):
                     if st.entails_ge(blen - hi_l):
                         st.cons.add_eq(L - (hi_l - lo_l))
                     else:
-                        # L = max(0, min(hi, len) - lo) >= len - lo  when len < hi ; always >= min(...)-lo
-                        pass
+                        # L = min(hi, len) - lo : common constant lower bounds of hi and len carry over
+                        for c_ in (2, 1):
+                            if st.entails_ge(hi_l - lo_l - c_) and st.entails_ge(blen - lo_l - c_):
+                                st.cons.add_ge(L - c_)
+                                break
                 else:
                     st.cons.add_ge(hi_l - L)      # still at most hi
             elif lo_nonneg and hi_l.is_const() and hi_l.c < 0 and lo_l.is_const() and lo_l.c == 0:
